@@ -12,10 +12,19 @@
   * `Line::extents` (the parallels iterator, all three stroke offsets) moves with the line;
   * hence `LineJoin::start / end / from_points` move with their points and the join KIND
     (miter / bevel / degenerate / colinear) does not depend on the position;
-  * a polyline moved with its `translate` field draws the moved rectangles.
+  * a polyline moved with its `translate` field draws the moved rectangles;
+  * a stroked polyline whose VERTICES are moved has the moved bounding box and `draw` fills the
+    moved rectangles in the same order (segment iterator, scanline intersections with merging,
+    scanline iterator), under explicit guards that only exclude `i32` saturation / sentinels;
+  * a styled triangle (any stroke width, alignment, fill) moved by `d` has the moved bounding box
+    and `draw` issues the moved `fill_solid` calls with the same colours, under the same kind of
+    guards (vertex sorting, `is_collapsed`, closed segment iterator, `edge_intersections`).
 -/
 import EG.Lemmas.JoinsJoin
 import EG.Lemmas.JoinsPolyline
+import EG.Lemmas.JoinsPolyScan
+import EG.Lemmas.JoinsTriMove
+import EG.Lemmas.JoinsPixels
 namespace EG.C07.Joins
 open EG EG.Joins
 
@@ -101,8 +110,9 @@ def JoinTranslate : Prop :=
     LineJoin.fromPoints (start + d) (mid + d) (stop + d) w off =
       (LineJoin.fromPoints start mid stop w off).map (·.translate d)
 
-/-- `LineJoin::from_points` moves with its points: same kind, corners moved by `d` (guard: no
-saturating cast in the two intersections of this join). -/
+/-- `LineJoin::from_points` moves with its points: same kind, corners moved by `d`. Guard
+`JoinNoSat`: each of the two rounded intersection points of this join is either discarded
+(`nearly_colinear_has_error`) or its `i32` casts do not saturate, before and after the move. -/
 theorem join_from_points_translate_partial (start mid stop : Pt) (w : Nat) (off : Thick.StrokeOffset)
     (d : Pt) (h : JoinNoSat start mid stop w off d) :
     LineJoin.fromPoints (start + d) (mid + d) (stop + d) w off =
@@ -116,6 +126,8 @@ theorem join_kind_translate_partial (start mid stop : Pt) (w : Nat) (off : Thick
       (LineJoin.fromPoints start mid stop w off).map (·.kind) :=
   fromPoints_kind_translate start mid stop w off d h
 
+-- nearly parallel long segments: both rounded points are discarded (`nearly_colinear_has_error`), so the guard holds whatever they are
+example : JoinNoSat ⟨0, 0⟩ ⟨100000, 1⟩ ⟨200000, 3⟩ 3 .none ⟨-7, 5⟩ := by decide
 -- the former C07 witness (polyline (0,0),(-6,-6),(-5,3), width 4, moved by (-3,4)) satisfies the guard
 example : JoinNoSat ⟨0, 0⟩ ⟨-6, -6⟩ ⟨-5, 3⟩ 4 .none ⟨-3, 4⟩ := by decide
 example : (LineJoin.fromPoints ⟨0, 0⟩ ⟨-6, -6⟩ ⟨-5, 3⟩ 4 .none).map (·.kind) = some .miter := by decide
@@ -129,9 +141,122 @@ theorem polyline_translate_field_draw (t : Pt) (vs : List Pt) (w : Nat) (hw : 2 
 
 example : (2 : Nat) ≤ 4 ∧ 1 < ([⟨0, 0⟩, ⟨-6, -6⟩, ⟨-5, 3⟩] : List Pt).length := by decide
 
--- [V] a stroked polyline with MOVED VERTICES paints the shifted picture and has the shifted bounding box (ThickSegmentIter, scanline merging in ScanlineIntersections / ScanlineIterator on top of the proved join invariance): carried by correspondence + oracle only
--- [V] pixels() of a stroked polyline moved with its translate field is the shifted pixel sequence: carried by correspondence + oracle only
--- [V] a stroked triangle moved by d paints the shifted picture and has the shifted bounding box (sorted_clockwise, is_collapsed, ClosedThickSegmentIter, edge_intersections, fill between the strokes): carried by correspondence + oracle only
--- [V] the no-saturation guard holds for all display-scale inputs (intersection points of joins stay far inside i32): carried by correspondence + oracle only
+/-- The segments (`ThickSegmentIter`) of a polyline with moved vertices are the moved segments. -/
+theorem polyline_segments_moved_partial (vs : List Pt) (w : Nat) (d : Pt) (hn : 2 ≤ vs.length)
+    (hns : PolyNoSat w d vs) :
+    polySegments (vs.map (· + d)) w = (polySegments vs w).map (·.map (·.translate d)) :=
+  segments_moved vs w d hn hns
+
+/-- A thick segment moved by `d` paints, in row `y + d.y`, the scanline it painted in row `y`,
+moved (`SR`: both empty, or exactly shifted). Unconditional. -/
+theorem thick_segment_scanline_translate (s : ThickSegment) (d : Pt) (y : Int) :
+    SR d ((s.translate d).intersection (y + d.y)) (s.intersection y) :=
+  intersection_translate_segment s d y
+
+/-- Full-strength statement: moving the vertices of a stroked polyline moves its bounding box. -/
+def PolylineMovedVerticesBox : Prop :=
+  ∀ (vs : List Pt) (w : Nat) (d : Pt), 0 < w → 2 ≤ vs.length →
+    styledBoundingBox ⟨Pt.zero, vs.map (· + d)⟩ w = (styledBoundingBox ⟨Pt.zero, vs⟩ w).map (·.translate d)
+
+/-- The bounding box of a stroked polyline with moved vertices is the moved box. Guards:
+`PolyNoSat` (no saturating cast in a join), `BoxGuard` (the first segment's box absorbs the
+`i32::MAX / MIN` start values of the fold, i.e. its corners are `i32` values). -/
+theorem polyline_moved_vertices_box_partial (vs : List Pt) (w : Nat) (d : Pt) (hw : 0 < w)
+    (hn : 2 ≤ vs.length) (hns : PolyNoSat w d vs) (hg : BoxGuard vs w d) :
+    styledBoundingBox ⟨Pt.zero, vs.map (· + d)⟩ w = (styledBoundingBox ⟨Pt.zero, vs⟩ w).map (·.translate d) := by
+  unfold styledBoundingBox
+  rw [untranslatedBoundingBox_moved vs w d hw hn hns hg]
+  cases untranslatedBoundingBox ⟨Pt.zero, vs⟩ w with
+  | none => rfl
+  | some r =>
+    simp only [Option.map_some, Option.bind_eq_bind, Option.bind_some, pure, Option.some.injEq]
+    rw [rect_translate_zero, rect_translate_zero]
+
+/-- Full-strength statement: moving the vertices of a stroked polyline moves what `draw` paints. -/
+def PolylineMovedVerticesDraw : Prop :=
+  ∀ (vs : List Pt) (w : Nat) (d : Pt), 2 ≤ w → 2 ≤ vs.length →
+    drawStyled ⟨Pt.zero, vs.map (· + d)⟩ w = (drawStyled ⟨Pt.zero, vs⟩ w).map (PolyDraw.translate · d)
+
+/-- **`draw` of a stroked polyline (width >= 2) with moved vertices issues the moved `fill_solid`
+rectangles, in the same order.** Guards as above plus `RowsGuard` (`Rectangle::rows()` of the
+moved box does not saturate). -/
+theorem polyline_moved_vertices_draw_partial (vs : List Pt) (w : Nat) (d : Pt) (hw : 2 ≤ w)
+    (hn : 2 ≤ vs.length) (hns : PolyNoSat w d vs) (hg : BoxGuard vs w d) (hrows : RowsGuard vs w d) :
+    drawStyled ⟨Pt.zero, vs.map (· + d)⟩ w = (drawStyled ⟨Pt.zero, vs⟩ w).map (PolyDraw.translate · d) := by
+  obtain ⟨k, rfl⟩ : ∃ k, w = k + 2 := ⟨w - 2, by omega⟩
+  unfold drawStyled
+  simp only []
+  rw [drawThickRects_moved vs (k + 2) d (by omega) hn hns hg hrows]
+  cases drawThickRects ⟨Pt.zero, vs⟩ (k + 2) with
+  | none => rfl
+  | some rs =>
+    simp only [Option.map_some, Option.bind_eq_bind, Option.bind_some, ne_eq, not_true_eq_false,
+      ↓reduceIte, pure, PolyDraw.translate]
+
+/-- `pixels()` of a stroked polyline (width >= 2) with moved vertices is the moved pixel sequence
+(same pixels, same order). -/
+theorem polyline_moved_vertices_pixels_partial (vs : List Pt) (w : Nat) (d : Pt) (hw : 2 ≤ w)
+    (hn : 2 ≤ vs.length) (hns : PolyNoSat w d vs) (hg : BoxGuard vs w d) (hrows : RowsGuard vs w d) :
+    pixels ⟨Pt.zero, vs.map (· + d)⟩ w = (pixels ⟨Pt.zero, vs⟩ w).map (·.map (· + d)) :=
+  pixels_moved vs w d hw hn hns hg hrows
+
+/-- `pixels()` of a stroked polyline (width >= 2) moved with its `translate` field is the moved
+pixel sequence. -/
+theorem polyline_translate_field_pixels (t : Pt) (vs : List Pt) (w : Nat) (hw : 2 ≤ w)
+    (hn : 1 < vs.length) :
+    pixels ⟨t, vs⟩ w = (pixels ⟨Pt.zero, vs⟩ w).map (·.map (· + t)) :=
+  pixels_translate_field t vs w hw hn
+
+-- the former C07 witness satisfies all guards: its picture moves with its vertices
+example : 2 ≤ 4 ∧ 2 ≤ ([⟨0, 0⟩, ⟨-6, -6⟩, ⟨-5, 3⟩] : List Pt).length ∧
+    PolyNoSat 4 ⟨-3, 4⟩ [⟨0, 0⟩, ⟨-6, -6⟩, ⟨-5, 3⟩] ∧ BoxGuard [⟨0, 0⟩, ⟨-6, -6⟩, ⟨-5, 3⟩] 4 ⟨-3, 4⟩ ∧
+    RowsGuard [⟨0, 0⟩, ⟨-6, -6⟩, ⟨-5, 3⟩] 4 ⟨-3, 4⟩ := by decide
+
+/-- `sorted_clockwise` commutes with translation (the doubled area is invariant). -/
+theorem triangle_sorted_clockwise_translate (t : Tri) (d : Pt) :
+    (t.translate d).sortedClockwise = t.sortedClockwise.translate d :=
+  sortedClockwise_translate t d
+
+/-- `is_collapsed` does not depend on the position. -/
+theorem triangle_is_collapsed_translate_partial (t : Tri) (w : Nat) (off : Thick.StrokeOffset) (d : Pt)
+    (h : TriNoSat t w off d) : (t.translate d).isCollapsed w off = t.isCollapsed w off :=
+  isCollapsed_translate t w off d h
+
+/-- Full-strength statement: moving a styled triangle moves its bounding box. -/
+def TriangleBoxTranslate : Prop :=
+  ∀ (t : Tri) (style : TriStyle) (d : Pt),
+    triStyledBoundingBox (t.translate d) style = (triStyledBoundingBox t style).map (·.translate d)
+
+/-- The styled bounding box of a moved triangle is the moved box (guards: no saturating cast in the
+three joins of the clockwise-sorted triangle; the first segment box absorbs the fold sentinels). -/
+theorem triangle_box_translate_partial (t : Tri) (style : TriStyle) (d : Pt)
+    (hns : TriNoSat t.sortedClockwise style.strokeWidth style.strokeAlignment.toOffset d)
+    (hg : TriBoxGuard t style d) :
+    triStyledBoundingBox (t.translate d) style = (triStyledBoundingBox t style).map (·.translate d) :=
+  triStyledBoundingBox_translate t style d hns hg
+
+/-- Full-strength statement: moving a styled triangle moves what `draw` paints. -/
+def TriangleDrawTranslate : Prop :=
+  ∀ (t : Tri) (style : TriStyle) (d : Pt),
+    triDraw (t.translate d) style = (triDraw t style).map (·.map (shiftCall · d))
+
+/-- **`draw` of a moved styled triangle issues the moved `fill_solid` calls, same order, same
+colours** - any stroke width, alignment and fill. Guards: `TriGuards` (no saturating cast in the
+joins, `i32` corners, `rows()` of the moved box not saturating). -/
+theorem triangle_draw_translate_partial (t : Tri) (style : TriStyle) (d : Pt)
+    (hg : TriGuards t style d) :
+    triDraw (t.translate d) style = (triDraw t style).map (·.map (shiftCall · d)) :=
+  triDraw_translate t style d hg
+
+/-- `pixels()` of a moved styled triangle is the moved pixel sequence, with the same colours. -/
+theorem triangle_pixels_translate_partial (t : Tri) (style : TriStyle) (d : Pt)
+    (hg : TriGuards t style d) :
+    triPixels (t.translate d) style = (triPixels t style).map (·.map (shiftPx · d)) :=
+  triPixels_translate t style d hg
+
+-- the former C07 witness (triangle (-5,-4),(-5,-1),(-1,-4), width 3, Center, moved by (-7,-9)) satisfies the guards
+example : TriGuards ⟨⟨-5, -4⟩, ⟨-5, -1⟩, ⟨-1, -4⟩⟩ ⟨some 2, some 1, 3, .center⟩ ⟨-7, -9⟩ := by decide
+
+-- [V] the guards (PolyNoSat, BoxGuard, RowsGuard, TriGuards: no saturating i32 cast in a USED intersection point, box corners are i32 values, rows() does not saturate) hold for all display-scale inputs: carried by correspondence + oracle only
 
 end EG.C07.Joins
